@@ -49,6 +49,8 @@ struct Config {
   int frameForkWiden = 0;      // >0: widen at loop headers once a frame has forked more than this often
   bool dedupe = false;         // cross-path state deduplication at merge blocks         // undecided iterations of one branch before widening kicks in
   std::string reportRegion;
+  int64_t reportLimit = -1;       // track the set of byte values written below this offset of the report region
+  std::string wsetResetAfter;     // reset that set when this function returns (the failure token writer)
   std::vector<FieldSpec> fields;   // field map of the data object (fieldmap id 0)
 };
 
